@@ -1,6 +1,7 @@
 package sse
 
 import (
+	"context"
 	"errors"
 	"strconv"
 	"sync"
@@ -193,6 +194,7 @@ type vjScenario struct {
 	pubDone  []bool
 	shutErr  []error
 	shutDone []bool
+	shutCtxDone []bool
 	lids     []EventID
 	nsub, nmsg, nshut int
 	unfinished int
@@ -249,6 +251,7 @@ func vjRun(nsub, nmsg, nshut int, cancel bool, clientFaults bool, replayer int, 
 	s.pubDone = make([]bool, nmsg)
 	s.shutErr = make([]error, nshut)
 	s.shutDone = make([]bool, nshut)
+	s.shutCtxDone = make([]bool, nshut)
 	subs := make([]Subscription, nsub)
 	for i := 0; i < nsub; i++ {
 		ctx := &vhCtx{done: make(chan struct{})}
@@ -295,8 +298,10 @@ func vjRun(nsub, nmsg, nshut int, cancel bool, clientFaults bool, replayer int, 
 			// antecedent "published before the cancellation was requested" as strong as it gets).
 			s.ctxs[i].onDone = func() {
 				verifGo(func() {
-					s.env.add(vjEvent{kind: vjCancelReq, i: i, m: -1})
+					// the request is the moment the context's channel is closed (the log entry is
+					// written in the same atomic step, before the subscriber can react)
 					s.ctxs[i].cancel()
+					s.env.add(vjEvent{kind: vjCancelReq, i: i, m: -1})
 				})
 			}
 		}
@@ -315,7 +320,12 @@ func vjRun(nsub, nmsg, nshut int, cancel bool, clientFaults bool, replayer int, 
 		d := d
 		verifGo(func() {
 			s.env.add(vjEvent{kind: vjShutdownReq, i: d, m: -1})
-			err := s.j.Shutdown(&vhCtx{done: make(chan struct{})})
+			sctx := &vhCtx{done: make(chan struct{})}
+			if verifParam("SHUTCTX", 0) == 1 && verifChoose("shutdown-ctx-done", 2) == 1 {
+				sctx.cancel() // the context given to Shutdown has already ended
+				s.shutCtxDone[d] = true
+			}
+			err := s.j.Shutdown(sctx)
 			s.shutErr[d] = err
 			s.shutDone[d] = true
 			s.env.add(vjEvent{kind: vjShutdownReturn, i: d, m: -1, err: err})
@@ -456,13 +466,16 @@ func (s *vjScenario) checkC07() {
 		nilCount := 0
 		for d := 0; d < s.nshut; d++ {
 			verifAssert(s.shutDone[d], "C07/Shutdown-returns")
-			if s.shutErr[d] == nil {
+			switch {
+			case s.shutErr[d] == nil:
 				nilCount++
-			} else {
+			case s.shutCtxDone[d] && s.shutErr[d] == context.Canceled:
+				nilCount++ // the winning Shutdown may report its own context's error instead
+			default:
 				verifAssert(s.shutErr[d] == ErrProviderClosed, "C07/repeated-Shutdown-returns-ErrProviderClosed")
 			}
 		}
-		verifAssert(nilCount == 1, "C07/exactly-one-Shutdown-returns-nil")
+		verifAssert(nilCount == 1, "C07/exactly-one-Shutdown-returns-nil-or-its-context-error")
 		for i := 0; i < s.nsub; i++ {
 			verifAssert(s.env.returned[i], "C07/every-Subscribe-returns-after-Shutdown")
 		}
